@@ -10,7 +10,7 @@ import json, os, random, time
 import verif as V
 
 WRAPS = V.SIM_WRAPS + ['coap_malloc_type', 'coap_realloc_type', 'coap_free_type']
-SCENARIOS = ['setup', 'get', 'block1', 'block2', 'observe', 'uri', 'async', 'oscore']
+SCENARIOS = ['setup', 'get', 'block1', 'block2', 'observe', 'uri', 'async', 'oscore', 'rawblock1']
 
 
 def run(pid, tier):
@@ -67,6 +67,8 @@ def run(pid, tier):
             seen.add(key)
             p = V.save_replay(pid, 'case-%s.txt' % case.replace(' ', '-'), case + '\n# ' + rj['why'] + '\n')
             vio_out.append(('%s (scenario and failing allocation index: %s; %s line %d)' % (rj['why'], case, os.path.basename(r['trace']), rj['line']), p))
+    if not crashes and (nexec != len(lines) or ninj < len(lines) - 3 * len(SCENARIOS)):
+        raise V.Infra('vacuous: %d runs judged for %d cases, %d injections' % (nexec, len(lines), ninj))
     for (orig, rc, o) in crashes:
         case = lines[orig] if orig >= 0 else '?'
         p = V.save_replay(pid, 'crash-%s.log' % case.replace(' ', '-'), case + '\n' + o)
